@@ -977,3 +977,10 @@ mod tests {
         assert!(!bhd.black_hole_detected());
     }
 }
+
+#[cfg(feature = "__verif-hooks")]
+#[allow(missing_docs, unreachable_pub, dead_code, unused_imports, unused_qualifications)]
+pub mod verif {
+    use super::*;
+    include!(concat!(env!("QUINN_VERIF_HOOKS"), "/proto/connection/mtud.rs"));
+}
